@@ -181,8 +181,23 @@ class Tracer:
             self.inside.discard(i)
 
 
-def make_lock(tr):
-    class TracingLock(asyncio.Lock):
+def make_lock(tr, real=None):
+    """the client's OWN mutex, instrumented in place: the tracing class is derived from the class of the lock the client created and the
+    instance is re-classed, so whatever that class does in acquire() / release() (inner tasks, polling, logging) runs underneath the
+    instrumentation; a mutex that is not an asyncio.Lock (or cannot be re-classed) is replaced by a traced plain asyncio.Lock as before"""
+    base = type(real) if isinstance(real, asyncio.Lock) else asyncio.Lock
+    cls = _tracing_lock_class(tr, base)
+    if isinstance(real, asyncio.Lock) and not real.locked():
+        try:
+            real.__class__ = cls
+            return real
+        except TypeError:
+            pass
+    return _tracing_lock_class(tr, asyncio.Lock)()
+
+
+def _tracing_lock_class(tr, base):
+    class TracingLock(base):
         async def acquire(self):
             i = tr.tid()
             if i in tr.auto:
@@ -213,7 +228,7 @@ def make_lock(tr):
                     tr.delivered(i)
                 tr.old("rel")
                 tr.holder = None
-                asyncio.Lock.release(self)
+                super().release()
                 return None
             self.release()
             return None
@@ -226,7 +241,7 @@ def make_lock(tr):
             tr.holder = None
             super().release()
 
-    return TracingLock()
+    return TracingLock
 
 
 class Net:
@@ -539,7 +554,7 @@ async def scenario(spec, cancel_at):
     net.rc_default = spec.get("rc_default") or "o"
     wire = make_wire(tr, net)
     ecu = ECU(wire, timeout=TIMEOUT, max_retry=0)
-    ecu.mutex = make_lock(tr)
+    ecu.mutex = make_lock(tr, getattr(ecu, "mutex", None))
     if spec.get("believed_session"):
         ecu.state.session = spec["believed_session"]
         ecu.state.security_access_level = spec.get("believed_level")
@@ -702,10 +717,11 @@ async def scenario(spec, cancel_at):
                 tr.cancel_task(wt)
                 await asyncio.wait([wt], timeout=5)
         await orig_sleep(0.01)
+        locked_end = bool(ecu.mutex.locked())  # the REAL lock object, asked directly once everybody has ended
     finally:
         asyncio.sleep = orig_sleep
         asyncio.create_task = orig_create_task
-    return {"events": tr.events, "sched": tr.sched, "rounds": tr.rounds, "results": results, "reqs": reqs, "stuck": stuck,
+    return {"locked_end": locked_end, "events": tr.events, "sched": tr.sched, "rounds": tr.rounds, "results": results, "reqs": reqs, "stuck": stuck,
             "stuck_tids": stuck_tids, "lock_at_cap": lock_at_cap,
             "count": dict(tr.count), "workers": sorted(tr.worker_tids), "misuse": tr.misuse, "auto": sorted(tr.auto)}
 
@@ -959,6 +975,13 @@ def evaluate(ctx, cases):
                          f"client lock was held by task {holder} and waited for by {waiting}; schedule starts: " + " ".join(r["sched"][:24])
                          + " ... ends: " + " ".join(r["sched"][-8:]),
                          {**case, "sched_head": " ".join(r["sched"][:60])}, impl=_fmt(events)[-600:], spec_violated=True, site="UDSClient._request / reconnect (lock not released?)")
+            continue
+        if r["locked_end"]:
+            ctx.disagree("conc:lock-still-held-at-end",
+                         "every task has ended (reply, error or cancellation) but the client's own mutex still reports locked(): somebody who is "
+                         "not a caller any more holds it, the next user would block for ever; schedule ends: " + " ".join(r["sched"][-16:]),
+                         {**case, "sched_head": " ".join(r["sched"][:60])}, impl=_fmt(events)[-600:], spec_violated=True,
+                         site="UDSClient.mutex (acquire / release of the lock class the client uses)")
             continue
         ml, tids = model_lines(r)
         start = len(lines)
